@@ -75,7 +75,8 @@ Next == /\ Len(args) < MaxLen
 SpecsOK == WellFormedSpecs(specs)
 
 \* determinism and totality: for every possible next element exactly one action is enabled
-OneAction == \A tok \in Pool \cup ExtraPool : Cardinality({act \in Actions : Guard(act, st, tok, cfg)}) = 1
+OneAction == \A tok \in Pool \cup ExtraPool :
+               {act \in Actions : Guard(act, st, tok, cfg)} = {ActionOf(st, tok, cfg)}
 
 \* the fold used by the judges is the machine
 ScanAgrees == st = Scan(args, specs, cfg, V0)
@@ -109,7 +110,7 @@ Accounting ==
   /\ RoleCount("TakeArg") + (IF st.pend # <<>> THEN 1 ELSE 0)
        = Cardinality({i \in 1..Len(roles) : roles[i] \in {"Long", "Short"}
                         /\ LET r == IF roles[i] = "Short" THEN ShortTok(Drop(args[i], 1), specs, V0)
-                                    ELSE LongTok(IF HasPrefix(args[i], DD) THEN Drop(args[i], 2) ELSE Drop(args[i], 1), specs, V0)
+                                    ELSE LongTok(IF StartsDD(args[i]) THEN Drop(args[i], 2) ELSE Drop(args[i], 1), specs, V0)
                            IN r.need})
   /\ RoleCount("Terminator") <= 1
 
@@ -131,7 +132,7 @@ BSDSuffix == (cfg.bsd /\ st.stop) =>
 \* Complete reads all but the last element exactly as Parse does
 CompleteIsParse == Len(args) >= 1 =>
   /\ prev = Scan(Front(args), specs, cfg, V0)
-  /\ \A v \in {w \in AllVariants : w.unk = "arg"} :
+  /\ \A v \in {V0, [dd |-> "long", unk |-> "arg", abbr |-> "yes"]} :
        LET c == Complete(args, specs, cfg, v)
            p == Parse(Front(args), specs, cfg, v)
        IN  c.opts = p.opts /\ c.rest = p.rest
